@@ -23,3 +23,14 @@ pub fn vx_parse<T: VxParse>(s: &str) -> (r: Result<T, ParseIntError>)
     ensures T::dec(s@) is Some ==> r is Ok && r->Ok_0 == T::dec(s@)->Some_0,
             T::dec(s@) is None ==> r is Err
 { unimplemented!() }
+/// Option::or_else(f)
+pub assume_specification<T, F: FnOnce() -> Option<T>>[ Option::<T>::or_else ](o: Option<T>, f: F) -> (r: Option<T>)
+    requires o is None ==> f.requires(()),
+    ensures match o { Some(x) => r == Some(x), None => f.ensures((), r) };
+/// Option::or
+pub assume_specification<T>[ Option::<T>::or ](o: Option<T>, b: Option<T>) -> (r: Option<T>)
+    ensures r == (if o is Some { o } else { b });
+/// Option::map_or(default, f)
+pub assume_specification<T, U, F: FnOnce(T) -> U>[ Option::<T>::map_or ](o: Option<T>, default: U, f: F) -> (r: U)
+    requires o is Some ==> f.requires((o->Some_0,)),
+    ensures match o { Some(x) => f.ensures((x,), r), None => r == default };
